@@ -16,14 +16,21 @@ Streams (all through the implementation, the property oracles and the extracted 
               name, unquoted value; the tag shapes of extract_util.TAG_CHAR_SHAPES) exhaustively, then every generated abbreviation right of tags
               built from really used mixed-case names (DIV, MyComponent, viewBox, onClick, xlink:Href ...) and of
               the lower-case tag contexts re-cased (upper / Title / rAnDoM / camelCase)
+  value-roundtrip  round trip after a complete HTML tag whose UNQUOTED ATTRIBUTE VALUES use the whole value alphabet of
+              HTML 13.1.2.3 (everything but white space " ' = < > `): every value character in every place of a value x
+              every tag shape, EVERY properly nested bracket word over ( ) [ ] { } up to 3 (thorough 4) pairs -- every order
+              of kinds, every nesting shape -- in four filler layouts, closers without opener, really written JSX / template
+              values (items={[1,2]}, on={fn(a,b)}, v=f(x)[0].y), then random values nested up to depth 6 in random tags for
+              every generated abbreviation (c11_unquoted.py; two sub-classes fail on the unchanged library and are OFF)
   is_html     is_html / consume_quoted on tag-like texts (correspondence of the tag heuristic only), lower-case
-              and mixed-case spellings
+              and mixed-case spellings, tags with rich unquoted values (incl. brackets that are not properly nested)
 """
 import re
 import itertools
 
 from common import enc_str
 import extract_util as U
+import c11_unquoted as V
 
 TYPES = ('markup', 'stylesheet')
 
@@ -225,6 +232,42 @@ def gen_tag_roundtrip(ctx, rt_cases):
     return out
 
 
+# ------------------------------------------------------------------ round trip after tags with rich unquoted values
+VALUE_BRACKET_PAIRS = {'quick': 3, 'thorough': 4}
+VALUE_RT_PER_ABBR = {'quick': 2, 'thorough': 4}
+
+
+def gen_value_roundtrip(ctx, rt_cases):
+    """Round trip after a complete HTML tag whose unquoted attribute values use the whole value alphabet, brackets of
+    the three kinds nested in every order included.  rt_cases: the cases of gen_roundtrip (abbreviations reused)."""
+    rng = ctx.rng
+    tier = 'quick' if ctx.tier == 'quick' else 'thorough'
+    ma = [a for a in U.TAG_SWEEP_ABBRS if U.valid_abbreviation(a, True)] or ['a']
+    ca = [a for a in U.TAG_SWEEP_ABBRS_CSS if U.valid_abbreviation(a, False)] or ['m10']
+    sweep, st1 = V.value_char_sweep(ma, ca)
+    ctx.cover('value-roundtrip:exhaustive-value-character-cases', len(sweep))
+    br, st2 = V.bracket_sweep(VALUE_BRACKET_PAIRS[tier], ma, ca)
+    ctx.cover('value-roundtrip:exhaustive-bracket-value-cases', len(br))
+    for st in (st1, st2):
+        for where, n in st.items():
+            ctx.cover('value-roundtrip:%s' % ('values-of-switched-off-classes-not-embedded' if where == 'skipped'
+                                              else 'exhaustive:value-' + where), n)
+    out = [(rt, False) for rt in sweep + br]
+    seen = {}
+    for rt, wild in rt_cases:
+        markup = U.full_opts(rt.opts)['type'] == 'markup'
+        seen.setdefault((rt.abbr, markup), wild)
+    for (abbr, markup), wild in seen.items():
+        for rt in V.value_rt(rng, abbr, markup, VALUE_RT_PER_ABBR[tier]):
+            out.append((rt, wild))
+            ctx.cover('value-roundtrip:random-tag-cases')
+    for nm, on in (('brackets-not-properly-nested', V.UNQ_NOT_PROPERLY_NESTED),
+                   ('slash-before-name-characters-at-the-end', V.UNQ_SLASH_BEFORE_NAME_END)):
+        if on:
+            ctx.cover('value-roundtrip:%s:ON' % nm)
+    return out
+
+
 # ------------------------------------------------------------------ prefix round-trip stream
 PREFIX_RT_EXHAUSTIVE_LEN = {'quick': 2, 'thorough': 3}
 PREFIX_RT_PER_ABBR = {'quick': 4, 'thorough': 6}
@@ -381,6 +424,11 @@ def gen_html(ctx):
             t = t[:i] + rng.choice(['', '=', '"', ' ', '<', 'X', 'x']) + t[i + 1:]
         texts.append(t)
     ctx.cover('is_html:mixed-case-and-identifier-character-texts', len(texts) - n0)
+    # tags with rich unquoted values (every value character, every bracket nesting; also brackets NOT properly nested
+    # and `/name` endings, on which model and implementation must agree as well), random and damaged
+    n0 = len(texts)
+    texts.extend(V.html_texts(rng, VALUE_BRACKET_PAIRS['quick' if quick else 'thorough'], 2000 if quick else 30000))
+    ctx.cover('is_html:tags-with-rich-unquoted-values', len(texts) - n0)
     return texts
 
 
@@ -454,6 +502,21 @@ def run(ctx):
         '(UPPER / Title / rAnDoM / camelCase); name characters beyond the identifier alphabet (_ . @ #) are %s '
         '(extract_util.TAG_NAME_CHARS_BEYOND_IDENT); %d%% of the random consistency lines and a third of the is_html texts are '
         'written in mixed case as well; '
+        'round trip after a complete HTML tag with rich UNQUOTED attribute values (HTML Living Standard 13.1.2.3: an unquoted value '
+        'is any non-empty run without ASCII white space " \' = < > `, so brackets and all punctuation are value characters; JSX and '
+        'template languages write items={[1,2]} on={fn(a,b)}): each of %d value characters (every permitted printable ASCII character '
+        'and %d characters outside ASCII) in %d places of a value (alone / first / middle / last / doubled / before punctuation / after a slash) x %d '
+        'tag shapes (value last before > / before white space / before a self-closing slash / before a boolean, unquoted or quoted '
+        'attribute / between attributes) x look-ahead on/off for markup and every third case for stylesheet; EVERY properly nested '
+        'bracket word over ( ) [ ] { } with 1..%d pairs (every order of the three kinds, every nesting shape: %d words) in %d filler '
+        'layouts (bare / text inside every pair / call-like / text in every gap) plus %d really written values and closers without '
+        'opener outside the pairs, words of <= 2 pairs and the written values in all tag shapes, longer words in 2 rotating shapes; '
+        'then %d random tags per generated abbreviation (tame and wild) with 1..4 attributes whose unquoted values mix runs of the '
+        'whole alphabet, groups of random kinds nested up to depth 6 and closers without opener; the texts of all these tags, of '
+        'damaged variants and of the two switched-off classes also go through the is_html correspondence; values whose brackets are '
+        'NOT properly nested (opener without closer, crossing pairs) are %s (c11_unquoted.UNQ_NOT_PROPERLY_NESTED), values in '
+        'which a / is followed by letters, digits, - or : only up to the end (href=/about) are %s '
+        '(c11_unquoted.UNQ_SLASH_BEFORE_NAME_END); '
         'a case is non-trivial when extract returns a result (consistency) or is '
         'an embedded abbreviation (round trip); distinct by (line, position, options)'
     ) % (3 if quick else 4, len(U.EX_ALPHA), ''.join(U.EX_ALPHA),
@@ -462,7 +525,12 @@ def run(ctx):
          len(U.PREFIX_SHAPES) + len(U.PREFIX_SHAPES_CSS), PREFIX_RT_PER_ABBR['quick' if quick else 'thorough'],
          len(U.PREFIXES_RICH),
          len(U.TAG_IDENT_CHARS), len(U.TAG_CHAR_SHAPES), TAG_CASE_PER_ABBR['quick' if quick else 'thorough'],
-         'explored too' if U.TAG_NAME_CHARS_BEYOND_IDENT else 'NOT explored', int(RECASED_LINE_RATE * 100))
+         'explored too' if U.TAG_NAME_CHARS_BEYOND_IDENT else 'NOT explored', int(RECASED_LINE_RATE * 100),
+         len(V.UNQ_ASCII) + len(V.UNQ_NON_ASCII), len(V.UNQ_NON_ASCII), len(V.VALUE_PLACES), len(V.VALUE_TAG_SHAPES),
+         VALUE_BRACKET_PAIRS['quick' if quick else 'thorough'], len(V.bracket_words(VALUE_BRACKET_PAIRS['quick' if quick else 'thorough'])),
+         len(V.LAYOUTS), len(V.REALISTIC_VALUES), VALUE_RT_PER_ABBR['quick' if quick else 'thorough'],
+         'explored too' if V.UNQ_NOT_PROPERLY_NESTED else 'NOT explored (they fail on the unchanged library)',
+         'explored too' if V.UNQ_SLASH_BEFORE_NAME_END else 'NOT explored (they fail on the unchanged library)')
     model = ctx.model('extract') if ok else None
     # corpus first
     cons, rts = corpus_cases(ctx)
@@ -486,6 +554,12 @@ def run(ctx):
     tcases = gen_tag_roundtrip(ctx, cases)
     check_roundtrip(ctx, tcases, model, 'tag-roundtrip')
     for rt, _ in tcases[len(tcases) // 5:len(tcases) // 5 + 1] + tcases[-1:]:
+        ctx.sample({'line': rt.line, 'pos': rt.pos, 'opts': rt.opts,
+                    'impl': repr(U.impl_extract(rt.line, rt.pos, rt.opts))})
+    # round trip after complete HTML tags with rich unquoted attribute values (brackets nested in every order)
+    vcases = gen_value_roundtrip(ctx, cases)
+    check_roundtrip(ctx, vcases, model, 'value-roundtrip')
+    for rt, _ in vcases[len(vcases) // 2:len(vcases) // 2 + 1] + vcases[-1:]:
         ctx.sample({'line': rt.line, 'pos': rt.pos, 'opts': rt.opts,
                     'impl': repr(U.impl_extract(rt.line, rt.pos, rt.opts))})
     # consistency
